@@ -19,7 +19,7 @@ EXPLANATION = (
     "k = 1..nbins, is selected by exactly one loop index and written to row k-1. L1: library attributes on these "
     "paths resolve. Not decided: interpolation error for non-linear profiles.")
 RULE_TEXT = "one obligation per routine clause; the bin-cover rule enumerates nbins in {2,3,5} x all classes"
-FLOORS = {'C14.R1': 3, 'C14.R2': 2, 'C14.R3': 3, 'C14.R4': 2}
+FLOORS = {'C14.R1': 3, 'C14.R2': 2, 'C14.R3': 4, 'C14.R4': 2, 'C14.R5': 1}
 PINNED_EXPECT = [('C14.R4', 'emd.cycles.bin_by_phase', 'every allocated phase bin'),
                  ('L1', 'emd.support.ensure_equal_dims', 'numpy.alltrue')]
 
@@ -38,6 +38,7 @@ def run(ctx):
     rule_stat(ctx, 'C14.R1')
     rule_project(ctx, 'C14.R2')
     rule_phase_align(ctx, 'C14.R3')
+    rule_stat_caller(ctx, 'C14.R5')
     rule_bin_cover(ctx, 'C14.R4')
     l1.rule_lib_attrs(ctx, 'L1', ['emd.cycles.phase_align', 'emd.cycles.bin_by_phase', 'emd.cycles.get_cycle_stat'],
                       'cycle statistics')
@@ -192,9 +193,11 @@ def rule_phase_align(ctx, rid):
     P = ctx.P
     fi = P.func('emd.cycles.phase_align')
     ev = Evaluator(P)
-    exits = ev.run(fi, context={'mode': 'cycle', 'ii': None, 'interp_kind': 'linear'})
+    exits = ev.run(fi, context={'mode': 'cycle', 'ii': None})
     ctx.paths += len(exits)
     stores = _for_stores(exits, 'avg')
+    c4 = 'interpolant has the requested kind and extrapolates (no NaN / error at the first and last bin centre)'
+    bad4 = None
     c1 = 'phase and value of a cycle are taken at the same sample index set'
     c2 = 'interpolant is evaluated on the bin centres of define_hist_bins(0, 2pi, npoints)'
     c3 = 'aligned waveform of cycle i is stored in column i'
@@ -214,6 +217,13 @@ def rule_phase_align(ctx, rid):
             bad2 = 'value is %s' % show(val)[:60]
             continue
         f = val[1]
+        fkw = dict(f[3])
+        kind = fkw.get('kind', f[2][2] if len(f[2]) > 2 else C('linear'))
+        if kind != S('interp_kind'):
+            bad4 = 'interpolation kind is %s, the caller\'s interp_kind is ignored' % show(kind)[:40]
+        elif fkw.get('bounds_error', C(None)) != C(False) or fkw.get('fill_value') != C('extrapolate'):
+            bad4 = 'interpolant does not extrapolate: bounds_error=%s fill_value=%s' % (
+                show(fkw.get('bounds_error', C(None))), show(fkw.get('fill_value', C(None))))
         grid = val[2][0] if val[2] else None
         xs, ys = f[2][0], f[2][1]
         ip_t = e.state.env.get('ip')
@@ -236,7 +246,7 @@ def rule_phase_align(ctx, rid):
                                   ('nbins', S('npoints')), ('scale', C('linear')))), C(1))
         if grid != want_grid:
             bad2 = 'evaluated on %s' % show(grid)[:80]
-    for c, bad in ((c1, bad1), (c2, bad2), (c3, bad3)):
+    for c, bad in ((c1, bad1), (c2, bad2), (c3, bad3), (c4, bad4)):
         if bad:
             ctx.violation(rid, fi, c, bad)
         else:
@@ -320,3 +330,59 @@ def rule_bin_cover(ctx, rid):
                       node=ls.node, path=trace_tail(b, 6))
     else:
         ctx.passed(rid, fi, c2, '%d body paths, all writing' % len(ls.body_states), node=ls.node)
+
+
+def rule_stat_caller(ctx, rid):
+    """emd.cycles.get_cycle_stat: per mode the statistic is the support routine applied to (values, labels[, phase]) of
+    the cycles object, and out='samples' is project_cycles_to_samples of exactly that statistic on the same labels."""
+    P = ctx.P
+    fi = P.func('emd.cycles.get_cycle_stat')
+    exits = Evaluator(P).run(fi)
+    ctx.paths += len(exits)
+    STAT = {'cycle': 'emd._cycles_support.get_cycle_stat_from_samples',
+            'augmented': 'emd._cycles_support.get_augmented_cycle_stat_from_samples'}
+    seen = set()
+    bad = None
+    for e in exits:
+        if e.kind != 'return':
+            continue
+        mode = None
+        samples = None
+        for cd, truth, ln in e.state.conds:
+            if cd[0] == 'cmp' and cd[1] == '==' and cd[2] == S('mode') and is_c(cd[3]) and truth:
+                mode = cd[3][1]
+            if cd[0] == 'cmp' and cd[1] == '==' and cd[2] == S('out') and cd[3] == C('samples'):
+                samples = truth
+        if mode not in STAT or samples is None:
+            bad = (e, 'a return path is not selected by mode / out: %s' % show(e.value)[:60])
+            break
+        v = e.value
+        labels = None
+        if samples:
+            if not (v[0] == 'call' and v[1] == 'emd._cycles_support.project_cycles_to_samples'):
+                bad = (e, "out='samples' (mode=%s) is not project_cycles_to_samples of the statistic: %s"
+                       % (mode, show(v)[:80]))
+                break
+            kw = dict(v[3])
+            labels = kw.get('cycle_vect')
+            v = kw.get('vals')
+        if not (v is not None and v[0] == 'call' and v[1] == STAT[mode]):
+            bad = (e, 'mode=%s: the statistic is %s' % (mode, show(v)[:80] if v else None))
+            break
+        kw = dict(v[3])
+        lab2 = kw.get('cycle_vect')
+        if not (lab2 is not None and lab2[0] == 'attr' and lab2[2] == 'cycle_vect') or (labels is not None and labels != lab2):
+            bad = (e, 'mode=%s: statistic and projection use different label vectors: %s / %s'
+                   % (mode, show(lab2)[:40], show(labels)[:40] if labels else None))
+            break
+        if kw.get('func') != S('func') or S('values') not in set(subterms(kw.get('vals', NONE))):
+            bad = (e, 'mode=%s: the statistic is not func over the supplied values' % mode)
+            break
+        seen.add((mode, samples))
+    c = "per-cycle statistic and its 'samples' projection are the support routines on the object's own labels"
+    if bad:
+        ctx.violation(rid, fi, c, bad[1], node=bad[0].node, path=trace_tail(bad[0].state, 6))
+    elif seen != {('cycle', True), ('cycle', False), ('augmented', True), ('augmented', False)}:
+        ctx.undecided(rid, fi, c, 'modes x outputs found: %s' % sorted(seen))
+    else:
+        ctx.passed(rid, fi, c, '4 mode x output paths')
